@@ -2,6 +2,7 @@
 // Oracle: differential — the same bytes through the in-memory entry point and through stream entry points (stringstream,
 // short-read streambuf delivering 1..k bytes per call, non-seekable streambuf) must give the same value or the same error category.
 #include "common/dyn.h"
+#include "common/kf61.h"
 #include "ref/ref_utf.h"
 #include "bitserializer/types/std/map.h"
 #include "bitserializer/types/std/tuple.h"
@@ -71,9 +72,12 @@ template <class A> void diff_dyn(vf::Ctx& c, int archId) {
 	bool changed = false; std::string doc = sc.streamKind == 2 ? bytes : mutate(c.src, bytes, changed);
 	// recorded finding KF-52: the in-memory JSON loader does not validate UTF-8 inside strings, the stream loader does; text
 	// documents are kept inside the common domain of both entry points (well-formed UTF-8)
+	// recorded finding KF-61 (third-party RapidJSON 1.1.0): number literals beyond the double range / zero with an exponent crash its parser
+	if (archId == JSON && changed && kf61::literal(doc)) { c.label("excluded:KF-61-json-literal-beyond-1e300-or-zero-with-exponent"); doc = bytes; changed = false; }
 	if (archId != MSGPACK && changed && !refutf::valid8(doc)) { c.label("excluded:KF-52-ill-formed-utf8-in-text-document"); doc = bytes; changed = false; }
 	c.nontrivial = doc.size() > 256; c.label(changed ? "mutated" : "valid"); c.label(vf::cat("stream-kind=", sc.streamKind));
 	c.describe(vf::cat(arch_name(archId), " pad=", pad, " size=", doc.size(), changed ? " mutated " : " valid ", sc.str(), " h=", vf::hash_bytes(doc.data(), doc.size())));
+	if (getenv("VF_DUMP_DOC")) fprintf(stderr, "DOC[%s]\n", archId == MSGPACK ? vf::hex(doc).c_str() : doc.c_str());
 	Val t1 = dyn::shape(env), t2 = dyn::shape(env); dyn::LoadLog l1, l2;
 	Outcome o1 = dyn::load<A>(t1, doc, mem, &l1), o2 = dyn::load<A>(t2, doc, sc, &l2);
 	const std::string d = vf::cat(arch_name(archId), " tree=", refmp::show(tree).substr(0, 160), " size=", doc.size(), " pad=", pad, changed ? " mutated" : " valid", " [", sc.str(), "] memory => ", o1.str(), " | stream => ", o2.str(), " doc=", archId == MSGPACK ? (getenv("VF_FULL") ? vf::hex(doc) : vf::hex(doc.substr(0, 60)) + ".." + vf::hex(doc.substr(doc.size() > 80 ? doc.size() - 80 : 0))) : doc.substr(doc.size() > 300 ? doc.size() - 300 : 0));
